@@ -54,4 +54,56 @@ Section Fix.
       + destruct (beqb q' q); apply IH in H; simpl in H; destruct H as (H1 & H2 & H3 & H4); repeat split; auto.
       + apply IH in H. simpl in H. destruct H as (H1 & H2 & H3 & H4). repeat split; auto.
   Qed.
+  (* ---- repair F10e: unlabel only removes one key *)
+  Lemma aremove_sub (q0 : bytes) (l : list (bytes * N)) q w :
+    alookup beqb q (aremove beqb q0 l) = Some w -> alookup beqb q l = Some w.
+  Proof.
+    induction l as [|[a b] l IHl]; simpl; [discriminate|].
+    destruct (beqb q0 a) eqn:Ea; simpl.
+    - intros H. destruct (beqb q a) eqn:E0; [|auto].
+      exfalso. apply beqb_eq in Ea, E0. subst. clear IHl. induction l as [|[a' b'] l IHl]; simpl in H; [discriminate|].
+      destruct (beqb a a') eqn:E1; simpl in H; [auto|]. rewrite E1 in H. auto.
+    - destruct (beqb q a); auto.
+  Qed.
+
+  Lemma aremove_in (q0 : bytes) (l : list (bytes * N)) x : In x (aremove beqb q0 l) -> In x l.
+  Proof.
+    induction l as [|[a b] l IHl]; simpl; [auto|]. destruct (beqb q0 a); simpl; [auto|]. intros [H|H]; auto.
+  Qed.
+
+  Lemma unlabel_off r wd p : c_fix_relabel C = false -> unlabel C r wd p = wfp r.
+  Proof. intros H. unfold unlabel. now rewrite H. Qed.
+
+  Lemma unlabel_sub r wd p q w : alookup beqb q (unlabel C r wd p) = Some w -> alookup beqb q (wfp r) = Some w.
+  Proof.
+    unfold unlabel. destruct (c_fix_relabel C); [|auto].
+    destruct (alookup N.eqb wd (pfw r)) as [known|]; [|auto].
+    destruct (negb (beqb known p) && _); [apply aremove_sub | auto].
+  Qed.
+
+  Lemma unlabel_in r wd p x : In x (unlabel C r wd p) -> In x (wfp r).
+  Proof.
+    unfold unlabel. destruct (c_fix_relabel C); [|auto].
+    destruct (alookup N.eqb wd (pfw r)) as [known|]; [|auto].
+    destruct (negb (beqb known p) && _); [apply aremove_in | auto].
+  Qed.
+
+  (* nothing to forget: the descriptor is new, or already recorded under this very path, or its old key points elsewhere *)
+  Lemma unlabel_fresh r wd p : alookup N.eqb wd (pfw r) = None -> unlabel C r wd p = wfp r.
+  Proof. intros H. unfold unlabel. rewrite H. now destruct (c_fix_relabel C). Qed.
+
+  Lemma unlabel_same r wd p : alookup N.eqb wd (pfw r) = Some p -> unlabel C r wd p = wfp r.
+  Proof. intros H. unfold unlabel. rewrite H, beqb_refl. now destruct (c_fix_relabel C). Qed.
+
+  (* the only change: the stale key itself disappears *)
+  Lemma unlabel_other r wd p q known :
+    alookup N.eqb wd (pfw r) = Some known -> q <> known -> alookup beqb q (unlabel C r wd p) = alookup beqb q (wfp r).
+  Proof.
+    intros H Hq. unfold unlabel. rewrite H. destruct (c_fix_relabel C); [|reflexivity].
+    destruct (negb (beqb known p) && _); [|reflexivity].
+    clear H. induction (wfp r) as [|[a b] l IHl]; simpl; [reflexivity|].
+    destruct (beqb known a) eqn:Ea; simpl.
+    - apply beqb_eq in Ea. subst a. destruct (beqb q known) eqn:E; [apply beqb_eq in E; contradiction | exact IHl].
+    - destruct (beqb q a); [reflexivity | exact IHl].
+  Qed.
 End Fix.
